@@ -201,7 +201,7 @@ func (a *Action) Exec(bs map[string]interface{}) ExecResult {
 			return ExecResult{Outcome: "fail"}
 		case "retnull":
 			return ExecResult{Outcome: "null", Emitted: out}
-		case "retbad", "retarr", "retfn", "retdate", "retgetter", "retcyclic", "throwbare", "throwhostile":
+		case "retbad", "retarr", "retfn", "retdate", "retgetter", "retcyclic", "throwbare", "throwhostile", "throwplain", "throwarr":
 			return ExecResult{Outcome: "bad"}
 		case "tick":
 		}
